@@ -119,7 +119,7 @@ CLAIMED = {
         "Sign of zero not tracked; v4 float arithmetic bounded as exact rationals. Trusted: " + TB,
     ),
     "C10": (
-        "proof",
+        "other",
         "abstract interpretation of as_json to an abstract JSON object + abstract schema validation + DFA inclusion for vectorString",
         "DESIGN.md section 4 C10",
         "For all four (sort, minimal) combinations every possible value of every emitted key that the pinned FIRST schema "
@@ -153,6 +153,50 @@ CLAIMED = {
         "temporal_vector()/environmental_vector() list exactly their group's metrics in specification order with the given value, "
         "the Not Defined token when omitted or (v3 modified metrics) the base metric's value.",
         "Score preservation is the composition of C05.nd and C06.a. Trusted: " + TB,
+    ),
+    "C13": (
+        "proof",
+        "regex-as-data reasoning (re._parser AST) against the parsers' tables + try/handler and guard analysis",
+        "DESIGN.md section 4 C13",
+        "The candidate regex has no capturing group and the shape (optional prefix)(class){n,}; class, n, prefix group and the "
+        "no-straddle condition are checked against the accepted tables, so a delimited valid vector is matched exactly; both "
+        "constructor calls get the raw match inside a handler covering every constructor exception; results de-duplicated on ==.",
+        "Assumes leftmost-greedy re semantics and C04.escape/C07.eq. A regex of another shape is reported undecided (exit 2). Trusted: " + TB,
+    ),
+    "C14": (
+        "other",
+        "table monotonicity along the specification's severity orders; sign-of-dependence certificates on value graphs",
+        "DESIGN.md section 4 C14",
+        "Necessary conditions (monotone weights, both PR tables, strictly ordered v4 levels, monotone lookup along all digit "
+        "increments) and compositional certificates (partial derivatives bounded >= 0 by multilinear vertex enumeration; "
+        "threshold ITEs at the bottom of a clamp) for the sub-cases where they exist.",
+        "Not decided: v3 Scope changed, S/MS steps, v2 base in C/I/A, v4 across macrovector boundaries (numeric on the discrete grid). Trusted: " + TB,
+    ),
+    "C16": (
+        "proof",
+        "structural dominance analysis of the answer loop + decision tables of the version switches + table agreement",
+        "DESIGN.md section 4 C16",
+        "Version switches (tables, empty-answer token, prefix) are exact on the four versions; the answer loop has a single exit "
+        "right after the only append, dominated by the legality test; builder and parser value sets agree; every legal value is "
+        "in the image of the answer normaliser and the table spelling is appended.",
+        "Two accept idioms are recognised; another idiom is reported as analysis error, not as a violation. Trusted: " + TB,
+    ),
+    "C17": (
+        "other",
+        "decision tables over flag combinations and versions; try/handler containment; provenance of printed values",
+        "DESIGN.md section 4 C17",
+        "Option census, 128-row decision table of the version selection, version->class/heading tables, exception containment "
+        "for constructor, interactive entry and slot subscripts, and provenance of every printed value.",
+        "argparse's own behaviour is outside the model; relies on C18 for accessor totality. Trusted: " + TB,
+    ),
+    "C20": (
+        "other",
+        "AST feature census, API availability tables, divergence lints, plain-dict-order typestate, compile-only witnesses",
+        "DESIGN.md section 4 C20",
+        "The source stays in the common subset of 2.7 and 3.6-3.13 (syntax, names, __future__ imports, object bases), has no "
+        "int/int division or round(), no plain-dict order reaching results/output/control, and parses under every installed "
+        "declared interpreter.",
+        "Equality of results across runtimes in general is not decided (would need execution). Trusted: " + TB + "; the installed interpreters as parsers",
     ),
 }
 
